@@ -144,10 +144,12 @@ zero_on_drop!(z_128_clone, Aria128, any128().clone());
 
 // ---------------------------------------------------------------- C04 / C15 multi-block and b2b calls
 // FO, FE, SL2 are abstracted to record / replay uninterpreted functions (licensed by c_fo, c_fe, c_sl2): the per-block
-// calls are recorded, then the n-block in-place call and the buffer-to-buffer call must present them with the same
-// arguments in the same order (block after block) and give, block by block, the single-block results; b2b inputs,
+// calls of the buffer-to-buffer call are recorded, then the per-block calls and the n-block in-place call must present
+// them with the same arguments in the same order (block after block) and give the same results block by block; b2b inputs,
 // guard blocks around the output and the cipher state are untouched.  (Kani cannot stub the backend method of a
-// generic type by path, so the abstraction is at the round functions rather than at the whole block function.)
+// generic type by path, so the abstraction is at the round functions rather than at the whole block function.  The
+// Result-returning b2b call runs first, in record mode: run after a mode switch Kani 0.68 reports its Ok(()) as Err for
+// some instantiations, even for n = 0 where no stub is ever called - a spurious failure, see the report.)
 macro_rules! multi_block {
     ($name:ident, $mk:ident, $rk:expr, $n:expr, $one:path, $many:path, $b2b:path) => {
         #[kani::proof]
@@ -159,6 +161,17 @@ macro_rules! multi_block {
             let d = $mk();
             let (ek0, dk0) = (d.ek, d.dk);
             let inp: [[u8; 16]; $n] = kani::any();
+            // 1. buffer to buffer with guard blocks around the output (recorded run)
+            let mut src = [Array([0u8; 16]); $n];
+            let mut i = 0;
+            while i < $n { src[i] = Array(inp[i]); i += 1; }
+            let g: [u8; 16] = kani::any();
+            let mut dst = [Array(g); $n + 2];
+            $b2b(&d, &src, &mut dst[1..$n + 1]).unwrap();
+            assert!(usl::calls() == $n);
+            assert!(eq_bytes16(&dst[0].0, &g) && eq_bytes16(&dst[$n + 1].0, &g));
+            // 2. block by block (must repeat the recorded calls, block after block)
+            replay_all();
             let mut single = [[0u8; 16]; $n];
             let mut i = 0;
             while i < $n {
@@ -167,7 +180,10 @@ macro_rules! multi_block {
                 single[i] = b.0;
                 i += 1;
             }
-            assert!(usl::calls() == $n);
+            assert!(all_done());
+            let mut i = 0;
+            while i < $n { assert!(eq_bytes16(&dst[i + 1].0, &single[i]) && eq_bytes16(&src[i].0, &inp[i])); i += 1; }
+            // 3. in place, n blocks
             let mut blocks = [Array([0u8; 16]); $n];
             let mut i = 0;
             while i < $n { blocks[i] = Array(inp[i]); i += 1; }
@@ -176,17 +192,6 @@ macro_rules! multi_block {
             assert!(all_done());
             let mut i = 0;
             while i < $n { assert!(eq_bytes16(&blocks[i].0, &single[i])); i += 1; }
-            let mut src = [Array([0u8; 16]); $n];
-            let mut i = 0;
-            while i < $n { src[i] = Array(inp[i]); i += 1; }
-            let g: [u8; 16] = kani::any();
-            let mut dst = [Array(g); $n + 2];
-            replay_all();
-            $b2b(&d, &src, &mut dst[1..$n + 1]).unwrap();
-            assert!(all_done());
-            assert!(eq_bytes16(&dst[0].0, &g) && eq_bytes16(&dst[$n + 1].0, &g));
-            let mut i = 0;
-            while i < $n { assert!(eq_bytes16(&dst[i + 1].0, &single[i]) && eq_bytes16(&src[i].0, &inp[i])); i += 1; }
             assert!(eq_words(&ek0, &d.ek, $rk) && eq_words(&dk0, &d.dk, $rk));
         }
     };
